@@ -13,9 +13,19 @@ HAS this shape is read off the sources on every run: the obligations below are a
 import Restful.Model.Conc
 import Restful.Gen.Facts
 import Restful.Lemmas.Pool
+import Restful.Lemmas.Panic
 namespace Restful
 namespace Props
 open Gen Conc
+
+/-- the framework's half on the serve model: for every configuration, entry point and request —
+    encoding switched on at the container or at the route only, panics at any position, recovery on
+    or off — the compressor acquired for the request has been released once when the entry point
+    is left (`Spec.c13Holds` is what the check evaluates on the ledger of every real request) -/
+theorem C13_served_released_once (E : ReEnv) (cfg : Serve.Cfg) (e : Serve.Entry) (sr : Serve.SReq) :
+    Spec.c13Holds (Spec.obsOf (Serve.serve E cfg e {} sr)) = true := by
+  have h := Serve.Panic.serve_balanced E cfg e {} sr rfl
+  simp [Spec.c13Holds, Spec.obsOf, h]
 
 /-- the three acquire methods of the bounded cache are one non-blocking receive each, the three
     release methods one non-blocking send each: no plain send, receive or `len` check anywhere -/
